@@ -229,7 +229,8 @@ class Ctx:
         @st
         @given(strategy)
         def test(case):
-            if self.expired():
+            if self.expired() and not first:
+                # budget used up: remaining cases are skipped (never while a failure is being shrunk/replayed)
                 self.skipped_budget += 1
                 return
             self._begin(name, case)
